@@ -4,6 +4,8 @@
 //   --mode time      (C17) offset / add-back / comparison / refusal grids against 128-bit arithmetic
 #include "util.hpp"
 #include "pools.hpp"
+#include <zlib.h>
+#include <dirent.h>
 using namespace vh;
 using namespace CDNS;
 typedef unsigned __int128 u128; typedef __int128 i128;
@@ -53,11 +55,13 @@ static void check_hints_second_set(uint32_t qr, uint32_t sig, uint8_t rrh, uint8
     { CdnsExporter e(fp, MemSink{&outs}, CborOutputCompression::NO_COMPRESSION);
       e.set_active_block_parameters(1); e.write_block();                                  // arm the internal block with set 1
       e.buffer_qr(P1.qr[0]); e.buffer_qr(P1.qr[3]); e.buffer_aec(P1.aec[1]); e.buffer_mm(P1.mm[0]); e.buffer_mm(P1.mm[3]); e.write_block();
-      CdnsBlock b(bp1, 1); fill(b); e.write_block(b); b.clear(); fill(b); e.write_block(b); b.clear(); fill(b); e.write_block(b); }
+      CdnsBlock b(bp1, 1); fill(b); e.write_block(b); b.clear(); fill(b); e.write_block(b); b.clear(); fill(b); e.write_block(b);
+      // a filled block refuses other parameters (documented: returns false when the block isn't empty); the refused call must leave it a set-1 block
+      CdnsBlock c(bp1, 1); fill(c); if (c.set_block_parameters(bp0, 0)) out.push_back({"second-set|parameters-replaced-on-filled-block", "set_block_parameters on a block that holds items returned true"}); e.write_block(c); }
     ref::RFile rf; try { rf = ref::read_file(outs.at(0)); } catch (std::exception& e) { out.push_back({"second-set|invalid-output", e.what()}); return; }
-    if (rf.blocks.size() != 4) { out.push_back({"second-set|block-count", "expected 4 blocks, file has " + std::to_string(rf.blocks.size())}); return; }
-    static const char* WHO[] = {"exporter-buffered", "stand-alone", "stand-alone-reused", "stand-alone-reused-twice"};
-    for (size_t i = 0; i < 4; i++) { const ref::RBlock& b = rf.blocks[i]; const ref::RParams& rp = rf.params.at(b.bpi);
+    if (rf.blocks.size() != 5) { out.push_back({"second-set|block-count", "expected 5 blocks, file has " + std::to_string(rf.blocks.size())}); return; }
+    static const char* WHO[] = {"exporter-buffered", "stand-alone", "stand-alone-reused", "stand-alone-reused-twice", "stand-alone-after-refused-reparametrisation"};
+    for (size_t i = 0; i < 5; i++) { const ref::RBlock& b = rf.blocks[i]; const ref::RParams& rp = rf.params.at(b.bpi);
         stated_hints_respected(b, rp.qr_hints, rp.sig_hints, rp.rr_hints, rp.other_hints, std::string("second-set|") + WHO[i] + "|", out);
         if (b.bpi != 1) out.push_back({std::string("second-set|") + WHO[i] + "|states-other-parameter-set", std::string(WHO[i]) + " block built under parameter set 1 states set " + std::to_string(b.bpi)});
         else if (ref::block_dump(b) != M.cur.dump()) out.push_back({std::string("second-set|") + WHO[i] + "|content-differs", std::string(WHO[i]) + " block differs from the hint-filtered expectation"}); }
@@ -471,9 +475,34 @@ int main(int argc, char** argv) {
             if (ld != expect) R.violation("align|library-reader|" + where(ld), "padding " + std::to_string(pad) + ": CdnsReader returns something else than was written (member " + where(ld) + ")", rep);
             R.outcome("kind" + std::to_string(kind) + ":fill" + std::to_string(bytes.size() / 2048));
         };
+        // --named 1 (C15): the same sweep with NAMED outputs (plain and gzip), one closed by a rotation and one by destruction: whatever residue the output size has
+        // mod the staging buffer, what appears under the final name is a complete valid file (closing break included) and no '.part' file stays behind
+        bool named = a.kv.count("named") > 0; std::string ndir; if (named || !a.replay.empty()) ndir = scratch_dir();
+        auto gunzip = [](const std::string& z, std::string& out) { out.clear(); if (z.empty()) return false; z_stream zs; memset(&zs, 0, sizeof zs); if (inflateInit2(&zs, 31) != Z_OK) return false; zs.next_in = (Bytef*)z.data(); zs.avail_in = z.size(); char buf[65536]; int r;
+            do { zs.next_out = (Bytef*)buf; zs.avail_out = sizeof buf; r = inflate(&zs, Z_NO_FLUSH); if (r != Z_OK && r != Z_STREAM_END) { inflateEnd(&zs); return false; } out.append(buf, sizeof buf - zs.avail_out); } while (r != Z_STREAM_END && (zs.avail_in > 0 || zs.avail_out == 0));
+            inflateEnd(&zs); return r == Z_STREAM_END; };
+        auto run_named = [&](int comp, size_t pad, Result& R) {
+            std::string rep = "kind=" + std::to_string(3 + comp) + ";pad=" + std::to_string(pad); set_note(rep);
+            std::string d = ndir + "/n" + std::to_string(getpid()); mkdir(d.c_str(), 0700); std::string ext = comp ? ".gz" : "";
+            BlockParameters bp; bp.storage_parameters.max_block_items = 100000; std::vector<BlockParameters> bps = {bp}; FilePreamble fp(bps); model::Exporter M2({model::from(bp)});
+            { CdnsExporter e(fp, d + "/a", comp ? CborOutputCompression::GZIP : CborOutputCompression::NO_COMPRESSION); GenericQueryResponse q1 = P.qr[1]; q1.asn = nonperiodic(pad, 8); e.buffer_qr(q1); M2.buffer_qr(q1, nullptr);
+              e.rotate_output(d + "/b", true); M2.rotate(true); GenericMalformedMessage m = P.mm[1]; e.buffer_mm(m); M2.buffer_mm(m, nullptr); GenericQueryResponse q2 = P.qr[1]; q2.asn = nonperiodic(pad, 9); e.buffer_qr(q2); M2.buffer_qr(q2, nullptr); e.write_block(); M2.write_block(); }
+            R.count("traces"); R.count("nontrivial"); std::string cn = comp ? "gzip" : "plain";
+            const char* names[2] = {"a", "b"};
+            for (size_t oi = 0; oi < 2; oi++) { std::string path = d + "/" + names[oi] + ext, raw = slurp(path), plain; bool ok = comp ? gunzip(raw, plain) : (plain = raw, true);
+                std::string ex2 = "P{" + M2.outs[oi].preamble + "}"; for (auto& b : M2.outs[oi].blocks) ex2 += "|B{" + b.dump() + "}"; ex2 += "|eof"; std::string got;
+                if (!ok) got = raw.empty() ? "INVALID: no file under the final name" : "INVALID: compressed stream incomplete"; else try { got = lib::file_dump(ref::read_file(plain)); } catch (std::exception& e) { got = std::string("INVALID: ") + e.what(); }
+                if (got != ex2) R.violation("align|named|" + cn + "|" + (got.rfind("INVALID", 0) == 0 ? "incomplete-output-under-final-name" : "content"), "padding " + std::to_string(pad) + ": output " + names[oi] + ext + " (" + std::to_string(plain.size()) + " bytes uncompressed) closed by " + (oi ? "destruction" : "rotation") + ": " + got.substr(0, 90), rep);
+                unlink(path.c_str()); }
+            if (DIR* dd = opendir(d.c_str())) { while (dirent* de = readdir(dd)) { std::string n = de->d_name; if (n == "." || n == "..") continue; R.violation("align|named|" + cn + "|leftover-file", "padding " + std::to_string(pad) + ": " + n + " left in the output directory", rep); unlink((d + "/" + n).c_str()); } closedir(dd); }
+            rmdir(d.c_str()); R.outcome("named-" + cn);
+        };
         if (!a.replay.empty()) { std::string s = slurp(a.replay); int k; unsigned long pd; if (sscanf(s.c_str(), "kind=%d;pad=%lu", &k, &pd) != 2) return done(2);
-            Pool rp(1, 60); rp.run(1, [&](uint64_t, Result& R) { run_pad(k, pd, R); }, [&](uint64_t, const std::string& d, Result& R) { R.violation("align|" + crash_key(d), d.substr(0, 1500), s); }, total); return done(total.viol.empty() ? 0 : 1); }
+            Pool rp(1, 60); rp.run(1, [&](uint64_t, Result& R) { if (k >= 3) run_named(k - 3, pd, R); else run_pad(k, pd, R); }, [&](uint64_t, const std::string& d, Result& R) { R.violation("align|" + crash_key(d), d.substr(0, 1500), s); }, total); rm_rf(ndir); return done(total.viol.empty() ? 0 : 1); }
         size_t NP = T ? 4200 : 2101; Pool pool(a.jobs, 120);
+        if (named) { pool.run(2 * ((NP + 31) / 32), [&](uint64_t ti, Result& R) { int comp = ti % 2; size_t lo = (ti / 2) * 32; for (size_t pad = lo; pad < std::min(NP, lo + 32); pad++) run_named(comp, pad, R); if (ti % 23 == 0) R.sample("named kind=" + std::to_string(3 + comp) + ";pad=" + std::to_string(lo) + ".." + std::to_string(lo + 31)); },
+                 [&](uint64_t, const std::string& d, Result& R) { R.violation("align|" + crash_key(d), d.substr(0, 1500), pool.last_note); }, total);
+            total.n["evaluations"] = total.n["traces"]; rm_rf(ndir); return done(0); }
         pool.run(3 * ((NP + 31) / 32) + 1, [&](uint64_t ti, Result& R) { if (ti == 3 * ((NP + 31) / 32)) { for (size_t pad : {(size_t)4095, (size_t)4096, (size_t)4097, (size_t)6000, (size_t)8192, (size_t)20000, (size_t)70000}) for (int k = 0; k < 3; k++) run_pad(k, pad, R); return; }
             int kind = ti % 3; size_t lo = (ti / 3) * 32; for (size_t pad = lo; pad < std::min(NP, lo + 32); pad++) run_pad(kind, pad, R); if (ti % 23 == 0) R.sample("kind=" + std::to_string(kind) + ";pad=" + std::to_string(lo) + ".." + std::to_string(lo + 31)); },
                  [&](uint64_t, const std::string& d, Result& R) { R.violation("align|" + crash_key(d), d.substr(0, 1500), pool.last_note); }, total);
